@@ -131,6 +131,10 @@ def main():
             sys.exit(2)
     t_start = time.time()
     work = os.path.join(ROOT, ".work", pid)
+    # one run per property at a time (a second invocation waits): the work directory is wiped at start
+    os.makedirs(os.path.join(ROOT, ".work"), exist_ok=True)
+    _idlock = open(os.path.join(ROOT, ".work", pid + ".lock"), "w")
+    fcntl.flock(_idlock, fcntl.LOCK_EX)
     shutil.rmtree(work, ignore_errors=True)
     os.makedirs(work, exist_ok=True)
     os.makedirs(os.path.join(ROOT, "evidence"), exist_ok=True)
@@ -314,6 +318,8 @@ def main():
                             seen_nt.add(inp)
                 distinct_nontrivial = len(seen_nt)
 
+    if cfg.get("harness") and max(ncases, stats.get("cases", 0)) < cfg.get("min_cases", 1) and not any("harness" in b for b in broken):
+        broken.append(f"harness {cfg['harness']} produced {max(ncases, stats.get('cases', 0))} cases (< {cfg.get('min_cases', 1)}): nothing was compared")
     # ---- 5. classify ---------------------------------------------------------------------------------------------
     known = load_known(pid)
     reported, known_hit, viol_lines = [], {}, []
